@@ -135,6 +135,12 @@ theorem cmpBack_text (hrel : EnvRel TPx sets X.env X.se) (s t : Nat) (get : Int 
     · rw [if_neg heq]
       simp [heq]
 
+theorem cmpBack_text' (hrel : EnvRel TPx sets X.env X.se) (s t : Nat) (get : Int → VM.M Nat) (k : Nat) (sk tk : Int)
+    (hget : ∀ j c, VM.charAt X.env j = .ok c → get j = .ok c) (hs : sk = ((s + k : Nat) : Int))
+    (ht : tk = ((t + k : Nat) : Int)) (hsk : s + k ≤ X.se.n) (htk : t + k ≤ X.se.n) :
+    VM.cmpBack X.env false get k sk tk = .ok (decide ((X.se.text.drop s).take k = (X.se.text.drop t).take k)) := by
+  rw [hs, ht]; exact cmpBack_text hrel s t get hget k hsk htk
+
 end ref
 
 theorem lastCap_mem {C : List (Nat × Nat × Nat)} {g st len : Nat} (h : lastCap C g = some (st, len)) :
@@ -176,18 +182,18 @@ section refnode
 variable {X : Setup} {TPx : TP} {sets : List (List Nat)} {a i : Nat} {T S : List Int} {v : Int}
   {C : List (Nat × Nat × Nat)} {s : VMState}
 
-/-- **`Ref g`**, left to right, case-sensitive, not ECMAScript: the last capture of the group, compared with the text
-    at the position -/
+/-- **`Ref g`**, either direction, case-sensitive, not ECMAScript: the last capture of the group, compared with the
+    text at (right to left: before) the position -/
 theorem ref_delivers (hrel : EnvRel TPx sets X.env X.se) (hwf : St.wf X.se.n ⟨i, C⟩) (hid : ∀ g, X.sl g = g) {g : Nat}
-    (hg : g < X.p.capsize) (hecma : X.env.ecma = false) (he : Entry X a i (T ++ [v]) S C s)
-    (hia : InstrAt X.p a (i1 (opRef ||| bits false false) (g : Int))) (hf : ∃ w, VM.fetch X.p (a + 2) = .ok w) :
-    Delivers X (a + 2) T S S C (Spec.m X.se (.ref g false) false ⟨i, C⟩) s := by
-  have hoper : s.oper = ⟨opRef, false, false, false, false⟩ := by
-    rw [he.oper hia]; exact (decode_bits opRef (by decide) false false).2
+    (hg : g < X.p.capsize) (hecma : X.env.ecma = false) (he : Entry X a i (T ++ [v]) S C s) {d : Bool}
+    (hia : InstrAt X.p a (i1 (opRef ||| bits d false) (g : Int))) (hf : ∃ w, VM.fetch X.p (a + 2) = .ok w) :
+    Delivers X (a + 2) T S S C (Spec.m X.se (.ref g false) d ⟨i, C⟩) s := by
+  have hoper : s.oper = ⟨opRef, d, false, false, false⟩ := by
+    rw [he.oper hia]; exact (decode_bits opRef (by decide) d false).2
   have hop : Op.ofNat? s.oper.op = some .ref := by rw [hoper]; rfl
   have hb : s.oper.back = false := by rw [hoper]
   have hb2 : s.oper.back2 = false := by rw [hoper]
-  have hrtl : s.oper.rtl = false := by rw [hoper]
+  have hrtl : s.oper.rtl = d := by rw [hoper]
   have hci : s.oper.ci = false := by rw [hoper]
   have hsl : X.sl = fun g => g := funext hid
   have hcap := he.cap
@@ -199,7 +205,7 @@ theorem ref_delivers (hrel : EnvRel TPx sets X.env X.se) (hwf : St.wf X.se.n ⟨
   cases hl : lastCap C g with
   | none =>
     rw [hl] at hlast
-    have hm : Spec.m X.se (.ref g false) false ⟨i, C⟩ = [] := by simp [Spec.m, hl]
+    have hm : Spec.m X.se (.ref g false) d ⟨i, C⟩ = [] := by simp [Spec.m, hl]
     rw [hm]
     have hbody : VM.body X.p X.env s = .ok (s, .back) := by
       simp only [body, hop, modeOf, hb, hb2, caseRef, bind, Except.bind, hop0, VM.isMatched, hg0, if_false,
@@ -210,50 +216,92 @@ theorem ref_delivers (hrel : EnvRel TPx sets X.env X.se) (hwf : St.wf X.se.n ⟨
     rw [hl] at hlast
     obtain ⟨hmt, _, hmi, hml⟩ := hlast
     have hcin : st + len ≤ X.se.n := hwf.2 (g, st, len) (lastCap_mem hl)
-    have hse := sliceEq_false_iff X.se st i len hcin hin
     have hlen0 : ¬ ((len : Int) < 0) := by omega
-    by_cases hfit : i + len ≤ X.se.n
-    · have hfc : ¬ (VM.forwardchars X.env s < (len : Int)) := by
-        simp only [VM.forwardchars, hrtl, Bool.false_eq_true, if_false, env_len hrel, he.tp]; omega
-      have hcmp := fun get hget => cmpBack_text hrel st i get hget len hcin hfit
-      have e1 : (st : Int) + (len : Int) = ((st + len : Nat) : Int) := by omega
-      have e2 : (i : Int) + (len : Int) = ((i + len : Nat) : Int) := by omega
-      have hrm : VM.refmatch X.env s (st : Int) (len : Int) =
-          .ok (if (X.se.text.drop st).take len = (X.se.text.drop i).take len then some ((i : Int) + (len : Int)) else none) := by
-        unfold VM.refmatch
-        simp only [hlen0, if_false, hfc, hrtl, Bool.false_eq_true, hci, he.tp, Int.toNat_natCast, e1, e2]
-        rw [hcmp _ (fun j c h => by simp [h])]
+    -- what the case does, given what `refmatch` answers
+    have hbody_some : ∀ pos : Int, VM.refmatch X.env s (st : Int) (len : Int) = .ok (some pos) →
+        VM.body X.p X.env s = .ok (VM.textto s pos, .advance 1) := by
+      intro pos hrm
+      simp only [body, hop, modeOf, hb, hb2, caseRef, bind, Except.bind, hop0, VM.isMatched, hg0, if_false,
+        Int.toNat_natCast, hmt, if_true, hmi, hml, hrm, pure, Except.pure]
+    have hbody_none : VM.refmatch X.env s (st : Int) (len : Int) = .ok none → VM.body X.p X.env s = .ok (s, .back) := by
+      intro hrm
+      simp only [body, hop, modeOf, hb, hb2, caseRef, bind, Except.bind, hop0, VM.isMatched, hg0, if_false,
+        Int.toNat_natCast, hmt, if_true, hmi, hml, hrm, pure, Except.pure]
+    have e1 : (st : Int) + (len : Int) = ((st + len : Nat) : Int) := by omega
+    cases d with
+    | false =>
+      have hse := sliceEq_false_iff X.se st i len hcin hin
+      by_cases hfit : i + len ≤ X.se.n
+      · have hfc : ¬ (VM.forwardchars X.env s < (len : Int)) := by
+          simp only [VM.forwardchars, hrtl, Bool.false_eq_true, if_false, env_len hrel, he.tp]; omega
+        have hcmp := fun get hget => cmpBack_text hrel st i get hget len hcin hfit
+        have e2 : (i : Int) + (len : Int) = ((i + len : Nat) : Int) := by omega
+        have hrm : VM.refmatch X.env s (st : Int) (len : Int) =
+            .ok (if (X.se.text.drop st).take len = (X.se.text.drop i).take len then some ((i : Int) + (len : Int)) else none) := by
+          unfold VM.refmatch
+          simp only [hlen0, if_false, hfc, hrtl, Bool.false_eq_true, hci, he.tp, Int.toNat_natCast, e1, e2]
+          rw [hcmp _ (fun j c h => by simp [h])]
+          by_cases heq : (X.se.text.drop st).take len = (X.se.text.drop i).take len
+          · simp [heq]
+          · simp [heq]
         by_cases heq : (X.se.text.drop st).take len = (X.se.text.drop i).take len
-        · simp [heq]
-        · simp [heq]
-      by_cases heq : (X.se.text.drop st).take len = (X.se.text.drop i).take len
-      · have hm : Spec.m X.se (.ref g false) false ⟨i, C⟩ = [⟨i + len, C⟩] := by
-          simp [Spec.m, hl, refMatch, hse, hfit, heq]
+        · have hm : Spec.m X.se (.ref g false) false ⟨i, C⟩ = [⟨i + len, C⟩] := by
+            simp [Spec.m, hl, refMatch, hse, hfit, heq]
+          rw [hm]
+          rw [if_pos heq] at hrm
+          exact deliver_one (k := 1) he (hbody_some _ hrm) rfl rfl rfl rfl (by simp [VM.textto]) hf
+        · have hm : Spec.m X.se (.ref g false) false ⟨i, C⟩ = [] := by
+            simp [Spec.m, hl, refMatch, hse, heq]
+          rw [hm]
+          rw [if_neg heq] at hrm
+          exact deliver_none he (hbody_none hrm) rfl rfl rfl
+      · have hfc : VM.forwardchars X.env s < (len : Int) := by
+          simp only [VM.forwardchars, hrtl, Bool.false_eq_true, if_false, env_len hrel, he.tp]; omega
+        have hrm : VM.refmatch X.env s (st : Int) (len : Int) = .ok none := by
+          unfold VM.refmatch; simp only [hlen0, if_false, hfc, if_true]
+        have hm : Spec.m X.se (.ref g false) false ⟨i, C⟩ = [] := by
+          simp [Spec.m, hl, refMatch, hse, hfit]
         rw [hm]
-        rw [if_pos heq] at hrm
-        have hbody : VM.body X.p X.env s = .ok (VM.textto s ((i : Int) + (len : Int)), .advance 1) := by
-          simp only [body, hop, modeOf, hb, hb2, caseRef, bind, Except.bind, hop0, VM.isMatched, hg0, if_false,
-            Int.toNat_natCast, hmt, if_true, hmi, hml, hrm, pure, Except.pure]
-        exact deliver_one (k := 1) he hbody rfl rfl rfl rfl (by simp [VM.textto]) hf
-      · have hm : Spec.m X.se (.ref g false) false ⟨i, C⟩ = [] := by
-          simp [Spec.m, hl, refMatch, hse, heq]
+        exact deliver_none he (hbody_none hrm) rfl rfl rfl
+    | true =>
+      by_cases hfit : len ≤ i
+      · have hse := sliceEq_false_iff X.se st (i - len) len hcin (by omega)
+        have hfit' : i - len + len ≤ X.se.n := by omega
+        have hfc : ¬ (VM.forwardchars X.env s < (len : Int)) := by
+          simp only [VM.forwardchars, hrtl, if_true, he.tp]; omega
+        have hcmp := fun get hget => cmpBack_text hrel st (i - len) get hget len hcin hfit'
+        have e2 : ((i - len + len : Nat) : Int) = (i : Int) := by omega
+        have hrm : VM.refmatch X.env s (st : Int) (len : Int) =
+            .ok (if (X.se.text.drop st).take len = (X.se.text.drop (i - len)).take len then some ((i : Int) - (len : Int))
+              else none) := by
+          unfold VM.refmatch
+          simp only [hlen0, if_false, hfc, hrtl, if_true, hci, he.tp, Int.toNat_natCast, e1]
+          rw [cmpBack_text' hrel st (i - len) _ len _ _ ?_ rfl e2.symm hcin hfit']
+          · by_cases heq : (X.se.text.drop st).take len = (X.se.text.drop (i - len)).take len
+            · simp [heq]
+            · simp [heq]
+          · intro j c h; simp [h]
+        have hnl : ¬ i < len := by omega
+        by_cases heq : (X.se.text.drop st).take len = (X.se.text.drop (i - len)).take len
+        · have hm : Spec.m X.se (.ref g false) true ⟨i, C⟩ = [⟨i - len, C⟩] := by
+            simp [Spec.m, hl, refMatch, hse, hfit', heq, hnl]
+          rw [hm]
+          rw [if_pos heq] at hrm
+          exact deliver_one (k := 1) he (hbody_some _ hrm) rfl rfl rfl rfl (by simp [VM.textto]; omega) hf
+        · have hm : Spec.m X.se (.ref g false) true ⟨i, C⟩ = [] := by
+            simp [Spec.m, hl, refMatch, hse, heq, hnl]
+          rw [hm]
+          rw [if_neg heq] at hrm
+          exact deliver_none he (hbody_none hrm) rfl rfl rfl
+      · have hfc : VM.forwardchars X.env s < (len : Int) := by
+          simp only [VM.forwardchars, hrtl, if_true, he.tp]; omega
+        have hrm : VM.refmatch X.env s (st : Int) (len : Int) = .ok none := by
+          unfold VM.refmatch; simp only [hlen0, if_false, hfc, if_true]
+        have hm : Spec.m X.se (.ref g false) true ⟨i, C⟩ = [] := by
+          have : i < len := by omega
+          simp [Spec.m, hl, refMatch, this]
         rw [hm]
-        rw [if_neg heq] at hrm
-        have hbody : VM.body X.p X.env s = .ok (s, .back) := by
-          simp only [body, hop, modeOf, hb, hb2, caseRef, bind, Except.bind, hop0, VM.isMatched, hg0, if_false,
-            Int.toNat_natCast, hmt, if_true, hmi, hml, hrm, pure, Except.pure]
-        exact deliver_none he hbody rfl rfl rfl
-    · have hfc : VM.forwardchars X.env s < (len : Int) := by
-        simp only [VM.forwardchars, hrtl, Bool.false_eq_true, if_false, env_len hrel, he.tp]; omega
-      have hrm : VM.refmatch X.env s (st : Int) (len : Int) = .ok none := by
-        unfold VM.refmatch; simp only [hlen0, if_false, hfc, if_true]
-      have hm : Spec.m X.se (.ref g false) false ⟨i, C⟩ = [] := by
-        simp [Spec.m, hl, refMatch, hse, hfit]
-      rw [hm]
-      have hbody : VM.body X.p X.env s = .ok (s, .back) := by
-        simp only [body, hop, modeOf, hb, hb2, caseRef, bind, Except.bind, hop0, VM.isMatched, hg0, if_false,
-          Int.toNat_natCast, hmt, if_true, hmi, hml, hrm, pure, Except.pure]
-      exact deliver_none he hbody rfl rfl rfl
+        exact deliver_none he (hbody_none hrm) rfl rfl rfl
 
 /-- `Testref g`: goes on exactly when the group has a capture -/
 theorem testref_step (hid : ∀ g, X.sl g = g) {g : Nat} (hg : g < X.p.capsize) {T' : List Int}
